@@ -428,7 +428,7 @@ def parseTagged (fuel : Nat) (ctx : Ctx) (arms : List Arm) (parentIsBlock : Bool
       if parentIsBlock then do
         let uid ← getNextId
         parseTagged fuel ctx arms parentIsBlock children
-          (⟨tok.text, ctx.line, uid, off, ctx.fileid ≠ 0⟩ :: comments)
+          (⟨tok.text, ctx.line, uid, off, tok.fileid ≠ 0⟩ :: comments)
       else parseTagged fuel ctx arms parentIsBlock children comments
     | .none => pure (children, comments.reverse)
     | .block tok isBlock off =>
